@@ -90,6 +90,13 @@ CHECKS["C15"] = dict(
     design="§3 C15, §8",
 )
 
+CHECKS["C20"] = dict(
+    technique="runtime monitoring: session histories driven in-process through ide::Cache (panic hook on every thread, per-operation watchdog) and over stdio against the real lelwel-ls (JSON-RPC client with random pacing / pipelining, exit status, stderr, /proc thread count), with differential oracles against the library on the latest text and against the harness's grammar model",
+    text="Every session must run without a panic in any thread, without a hang, with a response to every request and a clean exit; published diagnostics must equal the library's on the latest text; on model-rendered texts definition / references must equal the model's bindings; hover must show the analysis sets of the innermost node; every range must lie inside the document; formatting must equal format(latest text); stdio answers must equal the in-process answers.",
+    note="requests are only sent for open documents; positions inside a surrogate pair or past the line end are checked for survival and range validity only; liveness is restated as a reply within 30 s",
+    design="§3 C20, §8",
+)
+
 NOT_YET = "check not built yet in this round; design in DESIGN.md §3, build order §7"
 
 
